@@ -90,3 +90,7 @@ var localPrimitives = map[string]string{
 
 // C side: calls that never return
 var cNoReturn = map[string]bool{"luaL_error": true, "luaL_throwerror": true, "lua_error": true, "luaL_typerror": true, "luaL_argerror": true}
+
+// C helpers assumed not to fail while a contract function runs: getLuaExecContext raises an error only
+// when no service is attached to the Lua state, i.e. at load time at global scope, never inside a call.
+var cAssumedTotal = map[string]bool{"getLuaExecContext": true}
